@@ -519,7 +519,7 @@ def individual_parameters(model):
 # ====================================================================================================== the plan
 KINDS = [
     # (kind, weight)
-    ("cov", 30), ("allometry", 6), ("iiv", 10), ("pk_iiv", 2), ("iov", 6), ("etatrans", 8), ("err_basic", 12),
+    ("cov", 30), ("allometry", 6), ("iiv", 10), ("iiv_multi", 3), ("pk_iiv", 2), ("iov", 6), ("etatrans", 8), ("err_basic", 12),
     ("power", 5), ("iiv_on_ruv", 4), ("time_varying", 3), ("weighted", 3), ("dtbs", 2), ("blq", 3),
     ("absorption", 4), ("transit", 3), ("lagtime", 1),
 ]
@@ -1194,6 +1194,31 @@ def case_allometry(c, rng, idx, K):
                           "expected = original with P*(X/Z)**T after the last assignment of each scaled parameter")
     if not ok:
         return c
+    # documented attributes of each exponent: initials / bounds as given for THAT parameter (by its position in the
+    # request), else 0.75 for clearances (CL, Q..) and 1 for volumes (V..), bounds 0 and 2; fixed unless fixed=False
+    for _, p_, T in found:
+        tp = M2.parameters[T]
+        pos = kw["parameters"].index(p_) if explicit and p_ in kw["parameters"] else None
+        c.hit("allometry_exponent_attributes")
+        exp_init = None
+        if "initials" in kw and pos is not None:
+            exp_init = kw["initials"][pos]
+        elif "initials" not in kw:
+            exp_init = 0.75 if (p_.startswith("CL") or p_.startswith("Q")) else 1.0 if p_.startswith("V") else None
+        exp_lo = kw["lower_bounds"][pos] if "lower_bounds" in kw and pos is not None else (0.0 if "lower_bounds" not in kw else None)
+        exp_up = kw["upper_bounds"][pos] if "upper_bounds" in kw and pos is not None else (2.0 if "upper_bounds" not in kw else None)
+        bad = []
+        if exp_init is not None and abs(float(tp.init) - exp_init) > 1e-12:
+            bad.append(f"initial estimate {float(tp.init)} (documented / requested for {p_}: {exp_init})")
+        if exp_lo is not None and abs(float(tp.lower) - exp_lo) > 1e-12:
+            bad.append(f"lower bound {float(tp.lower)} (expected {exp_lo})")
+        if exp_up is not None and abs(float(tp.upper) - exp_up) > 1e-12:
+            bad.append(f"upper bound {float(tp.upper)} (expected {exp_up})")
+        if tp.fix != kw.get("fixed", True):
+            bad.append(f"fix={tp.fix} (expected {kw.get('fixed', True)})")
+        if bad:
+            c.violate(None, f"{c.sample['call']}: exponent {T} of {p_} has " + "; ".join(bad))
+            return c
     # neutral at the reference value
     for vals, rec, amounts, t, A in pts:
         rec2 = dict(rec)
@@ -1291,6 +1316,58 @@ def _custom_iiv_value(expr, eta):
         "exp(2*eta_new)": lambda: D.exp(2 * eta), "(eta_new**2 + 1)": lambda: eta * eta + 1,
         "1 + eta_new": lambda: 1 + eta, "exp(eta_new) - 1": lambda: D.exp(eta) - 1, "eta_new + 1": lambda: eta + 1,
     }[expr]()
+
+
+def case_iiv_multi(c, rng, idx, K):
+    """add_iiv with a LIST of parameters and expressions must give the model that the same requests give one after the
+    other (each single request is judged against its documented formula by case_iiv)."""
+    import pharmpy.modeling as pm
+
+    from vp import denote
+
+    nsteps = rng.choice([0, 0, 1])
+    M, sname, steps = build_start(rng, ["pheno_iv", "pheno_oral", "pheno_zo", "pheno_2cmt"], nsteps)
+    if rng.random() < 0.4:
+        try:
+            M = pm.add_bioavailability(M)
+            steps = steps + ["add_bioavailability"]
+        except Exception:
+            pass
+    params = individual_parameters(M)
+    if len(params) < 2:
+        c.skipped = "fewer-than-two-individual-parameters"
+        return c
+    k = rng.randint(2, min(3, len(params)))
+    ps = rng.sample(params, k)
+    for p in ps:
+        try:
+            if pm.has_random_effect(M, p, "iiv"):
+                M = pm.remove_iiv(M, p)
+        except Exception:
+            pass
+    forms = [rng.choice(["exp", "add", "prop", "log", "re_log", "re_log"]) for _ in ps]
+    one_form = rng.random() < 0.2
+    arg = forms[0] if one_form else forms
+    if one_form:
+        forms = [forms[0]] * k
+    c.sample = {"kind": "iiv_multi", "start": sname, "steps": steps, "call": f"add_iiv(m, {ps!r}, {arg!r})"}
+    c.fp = fp_of("iiv_multi", sname, steps, ps, forms)
+    M_list = apply_real(c, lambda: pm.add_iiv(M, ps, arg), "add_iiv")
+    if M_list is None:
+        return c
+    M_seq = M
+    for p, f in zip(ps, forms):
+        M_seq = apply_real(c, lambda: pm.add_iiv(M_seq, p, f), "add_iiv")
+        if M_seq is None:
+            return c
+    c.hit("iiv_multi_compared")
+    try:
+        j = denote.compare_models(denote.IRDen(M_seq), denote.IRDen(M_list), records(M_list), rng, K, c, prefix="multi_",
+                                  extra_targets=tuple(ps))
+        c.nontrivial = j > 0
+    except denote.Mismatch as mm:
+        c.violate(None, f"{c.sample['call']} differs from the same requests made one after the other: {mm.what}")
+    return c
 
 
 @with_mp
@@ -2766,6 +2843,13 @@ def case_transit(c, rng, idx, K):
         c.sample = {"kind": "transit", "start": sname, "steps": steps}
         c.fp = fp_of("transit", sname, steps, "nj")
         return c
+    if rng.random() < 0.35:
+        # a bioavailability on the dosing compartment (F1): the transit setters must carry it along
+        try:
+            M = pm.add_bioavailability(M)
+            steps = steps + ["add_bioavailability"]
+        except Exception:
+            pass
     n1 = rng.choice([2, 3, 5] if sname != "pheno_oral" else [1, 2, 3, 5])
     keep = rng.random() < 0.6
     second = rng.random() < 0.5
@@ -2800,6 +2884,23 @@ def case_transit(c, rng, idx, K):
         if len(tr) != n:
             c.hit("not_judged:number-of-transit-compartments-differs (C08)")
             return c
+        # the dose enters the (new) first compartment of the chain with the bioavailability and amount it had before
+        try:
+            amounts0 = {k: v for k, v in amounts.items() if k in set(M.statements.ode_system.compartment_names)}
+            for k in M.statements.ode_system.compartment_names:
+                amounts0.setdefault(k, 1.0)
+            _, _, ev0 = run(M, {k: v for k, v in vals.items()}, rec, amounts0, t)
+            d0 = [(e["bio"], [(k_, a_) for k_, a_, *_ in e["doses"]]) for e in ev0.values() if e["doses"]]
+            d2 = [(e["bio"], [(k_, a_) for k_, a_, *_ in e["doses"]]) for e in events.values() if e["doses"]]
+            if len(d0) == 1 and len(d2) == 1:
+                c.hit("transit_dose_bioavailability")
+                if not close(d0[0][0], d2[0][0], 1e-9) or len(d0[0][1]) != len(d2[0][1]) or any(
+                        x[0] != y[0] or not close(x[1], y[1], 1e-9) for x, y in zip(d0[0][1], d2[0][1])):
+                    c.violate(None, f"{c.sample['call']} (after {steps}): the dose entered with bioavailability {_f(d0[0][0])} and "
+                                    f"doses {d0[0][1]} before, with bioavailability {_f(d2[0][0])} and doses {d2[0][1]} after")
+                    return c
+        except (EvalError, Unbound):
+            c.hit("point_rejected")
         if "MDT" not in st:
             c.hit("not_judged:no-MDT-symbol")
             return c
